@@ -1,5 +1,7 @@
 #!/usr/bin/env python3
 """regress_seeds.py [-j N] [seed-id ...] -- re-run the stored seeded changes against the CURRENT machinery.
+regress_seeds.py --harmless [-j N] [id ...] -- the same for harmless/: all 20 quick checks must stay quiet.
+
 
 For every /verif/seeded/<id>/ (or the ids given): a scratch worktree of /repo at HEAD with patch.diff applied, a
 private copy of the Coq tree (generated tables follow the tree under test), and the quick check of every property
@@ -51,9 +53,44 @@ def one(sid):
     return ok
 
 
+def one_harmless(hid):
+    """a behaviour-preserving change: every quick check must stay quiet"""
+    d = os.path.join(ROOT, "harmless", hid)
+    meta = json.load(open(os.path.join(d, "meta.json")))
+    wt, cq = "/tmp/regwt_" + hid, "/var/tmp/coq_reg_" + hid
+    sh("rm -rf %s %s %s.ev; git -C /repo worktree prune; git -C /repo worktree add --detach %s HEAD -q" % (wt, cq, cq, wt))
+    r = sh("git -C %s apply --whitespace=nowarn %s/patch.diff" % (wt, d))
+    res = {}
+    if r.returncode != 0:
+        res = {"apply": "patch no longer applies to /repo HEAD"}
+    else:
+        shutil.copytree(os.path.join(ROOT, "coq"), cq, symlinks=True)
+        env = dict(os.environ, VERIF_COQ_DIR=cq, VERIF_EVIDENCE_DIR=cq + ".ev", VERIF_REPO=wt)
+        for p in ["C%02d" % i for i in range(1, 21)]:
+            out = subprocess.run(["timeout", "3000", "python3", os.path.join(ROOT, "tools", "check.py"), p, "--tier", "quick"],
+                                 env=env, stdout=subprocess.PIPE, stderr=subprocess.STDOUT, text=True).stdout
+            res[p] = "ALARM" if "\nVIOLATION" in "\n" + out else "quiet"
+    sh("git -C /repo worktree remove --force %s; rm -rf %s %s.ev" % (wt, cq, cq))
+    meta["regression"] = res
+    json.dump(meta, open(os.path.join(d, "meta.json"), "w"), indent=1)
+    ok = all(v == "quiet" for v in res.values()) and "apply" not in res
+    print("%-8s %s %s" % (hid, "quiet" if ok else "NOISY", {k: v for k, v in res.items() if v != "quiet"}), flush=True)
+    return ok
+
+
 def main():
     args = sys.argv[1:]
     j = 3
+    if args and args[0] == "--harmless":
+        args = args[1:]
+        if args and args[0] == "-j":
+            j = int(args[1])
+            args = args[2:]
+        ids = args or sorted(x for x in os.listdir(os.path.join(ROOT, "harmless")) if os.path.exists(os.path.join(ROOT, "harmless", x, "meta.json")))
+        with cf.ThreadPoolExecutor(max_workers=j) as ex:
+            oks = list(ex.map(one_harmless, ids))
+        print("harmless changes: %d, all checks quiet on: %d" % (len(ids), sum(oks)))
+        return 0 if all(oks) else 1
     if args and args[0] == "-j":
         j = int(args[1])
         args = args[2:]
